@@ -58,7 +58,7 @@ PROPS = {
     },
     "C02": {
         "title": "Closing and reopening a store preserves exactly its contents, deletions included",
-        "rules": [k3.s2_live_vs_recovery, k4.v1_log_iterator_eof, k1.w7_recovery_read_only, k5.o1_recovery_order, k2m.p5_merge_outputs_before_unlink, k5.ghint_hint_validation, k4.v5_hint_fallback, k2m.p4_merge_per_entry_order, k2m.s7_s8_merge_sets, k3.s1_roles, k9.s15_position_tracking, k9.s16_file_names, k9.s22_one_codec, k9.p21_new_active_datafile, k2.p3_publish_after_append, k10.s24_record_symmetry, k1.w1_file_mutation_api, controls.control("W1")],
+        "rules": [k3.s2_live_vs_recovery, k4.v1_log_iterator_eof, k1.w7_recovery_read_only, k5.o1_recovery_order, k2m.p5_merge_outputs_before_unlink, k5.ghint_hint_validation, k4.v5_hint_fallback, k2m.p4_merge_per_entry_order, k2m.s7_s8_merge_sets, k3.s1_roles, k9.s15_position_tracking, k9.s16_file_names, k9.s22_one_codec, k9.p21_new_active_datafile, k2.p3_publish_after_append, k10.s24_record_symmetry, k1.w1_file_mutation_api, controls.control("W1"), k10.o1b_listing_follows_links],
         "decides": "replaying a record performs the index effects writing it performed (tombstones remove); the sequential decoder stops cleanly exactly at end of file; recovery is read-only and creates one fresh file; files are replayed in ascending numeric id order; a merge always rotates the active file above its outputs (so later writes replay after merged copies); hint entries are admitted up to and including the end of the data file; only a missing hint falls back to the scan; hint records mirror the re-pointed entry by role and are appended in the right output; the sequential reader reports each record's (position before, bytes consumed); data/hint file names are `<id>.….<ext>` with distinct extensions and sorted_fileids recognises exactly the data extension; one bincode configuration on both sides; new_active_datafile always switches; the index changes only after the record (value or tombstone) was appended successfully — a failed delete leaves the key in place, memory and disk agree at the next open; the on-disk record types written are the types read, and each record's Serialize and Deserialize sides emit and decode the same fields, of the same types, in the same order, unconditionally (bincode is positional)",
         "not_decided": "equality of recovered values over histories; max+1 arithmetic beyond its shape",
     },
@@ -161,7 +161,7 @@ PROPS = {
     },
     "C19": {
         "title": "Per-file live/dead accounting always matches the files' real contents",
-        "rules": [k3.s3_displaced_accounting, k3.s2_live_vs_recovery, k2m.s7_s8_merge_sets, k9.s13_counter_arithmetic, k9.s2c_unconditional_counting, k9.s7b_merge_counts_in_output, k2.p3_publish_after_append, k5.ghint_hint_validation, k10.t2_no_narrowing, k10.s13c_counters_start_at_zero],
+        "rules": [k3.s3_displaced_accounting, k3.s2_live_vs_recovery, k2m.s7_s8_merge_sets, k9.s13_counter_arithmetic, k9.s2c_unconditional_counting, k9.s7b_merge_counts_in_output, k2.p3_publish_after_append, k5.ghint_hint_validation, k10.t2_no_narrowing, k10.s13c_counters_start_at_zero, k10.s24_record_symmetry, k10.o1b_listing_follows_links],
         "decides": "every displaced index entry is routed to overwrite(prev.len) on the file it lived in; every append is counted on the file it went to (before rollover) with the appended length; the rebuild counts like the live path; merge counts each copied entry live on the output it went to, looked up per entry; add_live/add_dead/overwrite change exactly the counters they name by 1 resp. the given byte count, on a single straight path; every record (also a tombstone of an absent key) is counted on the file it lies in on every path, in the writer and in the recovery scan alike; a merge books each copied entry on the output it was copied into (the id is not rolled over in between); the index (and with it the accounting of the displaced entry) changes only after the record was appended: a failed delete leaves index and counters untouched; a hint entry rejected by the extent test touches neither the index nor the per-file statistics (no phantom live keys); counters and location fields are 64 bits wide and no source-level cast in the storage layer narrows an integer",
         "not_decided": "equality with ground truth over histories; underflow of live_keys",
     },
